@@ -6,11 +6,13 @@ from __future__ import annotations
 
 import asyncio
 import logging
+import struct
 from collections import deque
 from dataclasses import dataclass, field
 from typing import Any, Callable, Optional
 
 import aiortc.rtcsctptransport as S
+from google_crc32c import value as crc32c
 from aiortc.rtcdatachannel import RTCDataChannel, RTCDataChannelParameters
 
 from . import vloop
@@ -21,6 +23,28 @@ logging.getLogger("aiortc").setLevel(logging.CRITICAL)
 YIELD_MS = [0, 0, 1, 5, 30, 200, 1200]
 DELAYS_MS = [0, 1, 5, 20, 100, 400, 1500, 4000, 1100, 900, 2200]  # appended values keep the meaning of older replays
 BASE_LATENCY = 0.010
+
+
+BUNDLE_MTU = 1400
+
+
+def chunk_types(data: bytes) -> list:
+    """Types of the chunks of an SCTP packet (the link may bundle, so taps must not look at the first chunk only)."""
+    out = []
+    pos = 12
+    while pos + 4 <= len(data):
+        length = int.from_bytes(data[pos + 2:pos + 4], "big")
+        if length < 4:
+            break
+        out.append(data[pos])
+        pos += length + (-length % 4)
+    return out
+
+
+def bundleable(first: bytes, nxt: bytes) -> bool:
+    """Same association header, and neither packet carries a chunk that must travel alone (INIT, INIT-ACK, SHUTDOWN-COMPLETE)."""
+    return len(first) > 12 and len(nxt) > 12 and first[:8] == nxt[:8] and \
+        not ({1, 2, 14} & set(chunk_types(first) + chunk_types(nxt)))
 
 
 class FakeIce:
@@ -72,6 +96,11 @@ class Link:
         self.fates = [deque(fates[0]), deque(fates[1])]
         self.healed = False
         self.yield_on_send = []  # see FakeDtls._send_data
+        self.bundle: list = []  # pattern of bundle sizes, cycled per packet and side; empty = one chunk per packet
+        self._pending: list = [[], []]
+        self._flush_scheduled = [False, False]
+        self._bundle_idx = [0, 0]
+        self.bundled = [0, 0]
         self.paused = False  # while set, datagrams are delivered normally and no fate is consumed (warm-up phases)
         self.inbox = [deque(), deque()]
         self.wakeup = [asyncio.Event(), asyncio.Event()]
@@ -93,6 +122,36 @@ class Link:
         self.fates[1].clear()
 
     def send(self, side: int, data: bytes) -> None:
+        if self.bundle:
+            # a sender that bundles (as usrsctp and the kernel stacks do): the datagrams of one loop turn are collected and
+            # leave as packets of several chunks
+            self._pending[side].append(data)
+            if not self._flush_scheduled[side]:
+                self._flush_scheduled[side] = True
+                self.loop.call_soon(self._flush, side)
+            return
+        self._send_now(side, data)
+
+    def _flush(self, side: int) -> None:
+        self._flush_scheduled[side] = False
+        pend, self._pending[side] = self._pending[side], []
+        i = 0
+        while i < len(pend):
+            n = self.bundle[self._bundle_idx[side] % len(self.bundle)]
+            self._bundle_idx[side] += 1
+            group = [pend[i]]
+            i += 1
+            while len(group) < n and i < len(pend) and bundleable(group[0], pend[i]) and sum(map(len, group)) + len(pend[i]) <= BUNDLE_MTU:
+                group.append(pend[i][12:])
+                i += 1
+            if len(group) > 1:
+                self.bundled[side] += 1
+                body = b"".join(group)
+                body = body[0:8] + b"\0\0\0\0" + body[12:]
+                group = [body[0:8] + struct.pack("<L", crc32c(body)) + body[12:]]
+            self._send_now(side, group[0])
+
+    def _send_now(self, side: int, data: bytes) -> None:
         self.sent[side] += 1
         if self.tap:
             self.tap(side, data)
@@ -396,6 +455,7 @@ class Session:
         case = self.case
         self.loop = loop
         link = Link(loop, case.get("fates", [[], []]))
+        link.bundle = [b for b in (case.get("bundle") or []) if isinstance(b, int) and b >= 1]
         ys = case.get("yield_send")
         link.yield_on_send = [1] if ys is True else list(ys or [])
         self.link = link
